@@ -310,6 +310,144 @@ def inline_self_calls(fn: ast.FunctionDef, lookup: T.Callable[[str], T.Optional[
     return new
 
 
+def desugar_with(fn: ast.FunctionDef, method: T.Callable[[str], T.Optional[ast.FunctionDef]], klass: T.Callable[[str], T.Optional[ast.ClassDef]]) -> ast.FunctionDef:
+    """Copy of `fn` in which `with self.m(args): body` is replaced by <enter statements>; body; <normal-exit statements>, when
+    m is (a) a generator-style context manager method (`...; yield; ...`, also inside try/finally) or (b) returns `K(...)` of a
+    scope class K whose __init__ only stores its parameters and whose __enter__/__exit__ are plain statements (the branch of
+    __exit__ for "no exception" is taken).  Anything else is left alone."""
+    import copy
+
+    class Subst(ast.NodeTransformer):
+        def __init__(self, names: T.Dict[str, ast.AST], attrs: T.Dict[str, ast.AST]):
+            self.names, self.attrs = names, attrs
+
+        def visit_Attribute(self, n: ast.Attribute) -> ast.AST:
+            ch = attr_chain(n)
+            if ch in self.attrs:
+                return ast.copy_location(copy.deepcopy(self.attrs[ch]), n)
+            return self.generic_visit(n)
+
+        def visit_Name(self, n: ast.Name) -> ast.AST:
+            if n.id in self.names and isinstance(n.ctx, ast.Load):
+                return ast.copy_location(copy.deepcopy(self.names[n.id]), n)
+            return n
+
+    def plain(stmts: T.List[ast.stmt]) -> T.List[ast.stmt]:
+        return [x for x in stmts if not (isinstance(x, ast.Expr) and isinstance(x.value, ast.Constant))]
+
+    def expand_cm(c: ast.Call) -> T.Optional[T.Tuple[T.List[ast.stmt], T.List[ast.stmt]]]:
+        name = (attr_chain(c.func) or '')[5:] if (attr_chain(c.func) or '').startswith('self.') and (attr_chain(c.func) or '').count('.') == 1 else ''
+        m = method(name) if name else None
+        if m is None:
+            return None
+        ps = params_of(m)[1:]
+        b = bind_call(c, ps)
+        if b is None or any(a is None for a in b):
+            return None
+        names = dict(zip(ps, b))  # type: ignore[arg-type]
+        body = plain(m.body)
+        # (a) generator: statements before / after the single top-level (or try-body) yield
+        ys = [x for x in ast.walk(m) if isinstance(x, (ast.Yield, ast.YieldFrom))]
+        if len(ys) == 1 and isinstance(ys[0], ast.Yield):
+            seq = body
+            tail: T.List[ast.stmt] = []
+            if len(body) >= 1 and isinstance(body[-1], ast.Try) and not body[-1].handlers and any(isinstance(x, ast.Expr) and x.value is ys[0] for x in body[-1].body):
+                seq, tail = body[:-1] + body[-1].body, body[-1].finalbody
+            idx = [i for i, x in enumerate(seq) if isinstance(x, ast.Expr) and x.value is ys[0]]
+            if len(idx) != 1:
+                return None
+            pre, post = seq[:idx[0]], seq[idx[0] + 1:] + tail
+            sub = Subst(names, {})
+            return [sub.visit(copy.deepcopy(x)) for x in pre], [sub.visit(copy.deepcopy(x)) for x in post]
+        # (b) scope class
+        if len(body) == 1 and isinstance(body[0], ast.Return) and isinstance(body[0].value, ast.Call) and isinstance(body[0].value.func, ast.Name):
+            k = klass(body[0].value.func.id)
+            if k is None:
+                return None
+            meths = {x.name: x for x in k.body if isinstance(x, ast.FunctionDef)}
+            if not {'__init__', '__enter__', '__exit__'} <= set(meths):
+                return None
+            ips = params_of(meths['__init__'])[1:]
+            ib = bind_call(body[0].value, ips)
+            if ib is None or any(a is None for a in ib):
+                return None
+            attrs: T.Dict[str, ast.AST] = {}
+            for st in plain(meths['__init__'].body):
+                if isinstance(st, (ast.Assign, ast.AnnAssign)) and isinstance(st.value, ast.Name) and st.value.id in ips \
+                        and (attr_chain(st.targets[0] if isinstance(st, ast.Assign) else st.target) or '').startswith('self.'):
+                    a = ib[ips.index(st.value.id)]
+                    attrs[attr_chain(st.targets[0] if isinstance(st, ast.Assign) else st.target) or ''] = Subst(names, {}).visit(copy.deepcopy(a))  # type: ignore[arg-type]
+                else:
+                    return None
+            ex = meths['__exit__']
+            exc = params_of(ex)[1] if len(params_of(ex)) > 1 else ''
+            post_src = plain(ex.body)
+            if len(post_src) == 1 and isinstance(post_src[0], ast.If) and norm(post_src[0].test) in (f'{exc} is None', f'not {exc}') and not post_src[0].orelse:
+                post_src = post_src[0].body
+            elif any(exc and exc in names_in(x) for x in post_src):
+                return None
+            if any(isinstance(x, (ast.Return, ast.Yield)) for st in post_src + plain(meths['__enter__'].body) for x in ast.walk(st)):
+                return None
+            sub = Subst({}, attrs)
+            return [sub.visit(copy.deepcopy(x)) for x in plain(meths['__enter__'].body)], [sub.visit(copy.deepcopy(x)) for x in post_src]
+        return None
+
+    def expand(stmts: T.List[ast.stmt]) -> T.List[ast.stmt]:
+        out: T.List[ast.stmt] = []
+        for st in stmts:
+            for field in ('body', 'orelse', 'finalbody'):
+                if isinstance(getattr(st, field, None), list) and not isinstance(st, (ast.FunctionDef, ast.ClassDef)):
+                    setattr(st, field, expand(getattr(st, field)))
+            if isinstance(st, ast.With) and len(st.items) == 1 and st.items[0].optional_vars is None and isinstance(st.items[0].context_expr, ast.Call):
+                r = expand_cm(st.items[0].context_expr)
+                if r is not None:
+                    out += r[0] + st.body + r[1]
+                    continue
+            out.append(st)
+        return out
+    if not any(isinstance(x, ast.With) for x in ast.walk(fn)):
+        return fn
+    new = copy.deepcopy(fn)
+    new.body = expand(new.body)
+    ast.fix_missing_locations(new)
+    return new
+
+
+def emission(st: ast.AST, buffers: T.Set[str]) -> T.Optional[T.List[ast.AST]]:
+    """The text expressions a printer statement emits: `self.result += X`, `self.result = self.result + X`, or - when `result`
+    is a property joining a list of chunks - `self.<chunks>.append(X)` / `.extend([X, Y])` / `+= [X]`."""
+    if isinstance(st, ast.AugAssign) and isinstance(st.op, ast.Add):
+        t = attr_chain(st.target)
+        if t == 'self.result':
+            return [st.value]
+        if t and t[5:] in buffers and isinstance(st.value, (ast.List, ast.Tuple)):
+            return list(st.value.elts)
+    if isinstance(st, ast.Assign) and attr_chain(st.targets[0]) == 'self.result' and isinstance(st.value, ast.BinOp) and isinstance(st.value.op, ast.Add) \
+            and norm(st.value.left) == 'self.result':
+        return [st.value.right]
+    if isinstance(st, ast.Expr) and isinstance(st.value, ast.Call) and isinstance(st.value.func, ast.Attribute):
+        base = attr_chain(st.value.func.value) or ''
+        if base.startswith('self.') and base[5:] in buffers and not st.value.keywords:
+            if st.value.func.attr == 'append' and len(st.value.args) == 1:
+                return [st.value.args[0]]
+            if st.value.func.attr == 'extend' and len(st.value.args) == 1 and isinstance(st.value.args[0], (ast.List, ast.Tuple)):
+                return list(st.value.args[0].elts)
+    return None
+
+
+def chunk_buffers(cls: ast.ClassDef) -> T.Set[str]:
+    """Attributes B of a printer class such that its `result` property returns ''.join(self.B)."""
+    out: T.Set[str] = set()
+    for m in cls.body:
+        if isinstance(m, ast.FunctionDef) and m.name == 'result' and any((attr_chain(d) or '') == 'property' for d in m.decorator_list):
+            for r in ast.walk(m):
+                if isinstance(r, ast.Return) and isinstance(r.value, ast.Call) and isinstance(r.value.func, ast.Attribute) and r.value.func.attr == 'join' \
+                        and isinstance(r.value.func.value, ast.Constant) and r.value.func.value.value == '' and len(r.value.args) == 1 \
+                        and (attr_chain(r.value.args[0]) or '').startswith('self.'):
+                    out.add((attr_chain(r.value.args[0]) or '')[5:])
+    return out
+
+
 def fixed_spellings(repo: T.Any, model: NodeModel) -> T.Dict[str, str]:
     """Node classes that the full-fidelity printer replays as a constant text, whatever token they were built from:
     `RawPrinter.visit_<K>` appends one string constant and reads no field of the node."""
@@ -321,15 +459,18 @@ def fixed_spellings(repo: T.Any, model: NodeModel) -> T.Dict[str, str]:
             continue
         fn = inline_self_calls(fn, meths.get, lambda n: n in ('enter_node', 'exit_node') or n.startswith('visit_'))
         node = params_of(fn)[1] if len(params_of(fn)) > 1 else None
-        opaque = [c for c in walk_no_nested(fn) if isinstance(c, ast.Call) and (attr_chain(c.func) or '').startswith('self.')
+        bufs = chunk_buffers(pm.cls('RawPrinter'))
+        emitted = [(st, emission(st, bufs)) for st in walk_no_nested(fn) if isinstance(st, ast.stmt)]
+        em_calls = {id(st.value) for st, e_ in emitted if e_ is not None and isinstance(st, ast.Expr)}
+        opaque = [c for c in walk_no_nested(fn) if isinstance(c, ast.Call) and (attr_chain(c.func) or '').startswith('self.') and id(c) not in em_calls
                   and (attr_chain(c.func) or '')[5:] not in ('enter_node', 'exit_node')]
         if opaque:
             out[name[6:]] = '?'     # what is printed for this class is decided in a helper that is not followed
             continue
-        adds = [n for n in walk_no_nested(fn) if isinstance(n, ast.AugAssign) and attr_chain(n.target) == 'self.result']
+        adds = [x for _, e_ in emitted if e_ is not None for x in e_]
         reads = [n for n in walk_no_nested(fn) if isinstance(n, ast.Attribute) and isinstance(n.value, ast.Name) and n.value.id == node]
-        if len(adds) == 1 and isinstance(adds[0].value, ast.Constant) and isinstance(adds[0].value.value, str) and not reads:
-            out[name[6:]] = adds[0].value.value
+        if len(adds) == 1 and isinstance(adds[0], ast.Constant) and isinstance(adds[0].value, str) and not reads:
+            out[name[6:]] = adds[0].value
     return out
 
 
